@@ -114,6 +114,7 @@ class _Gen:
         self.twin_budget = 1 if kn.unsafe_twin else 0
         self.twin_site = None
         self.uid = uid
+        self.negidx = None  # name of an index argument that may be negative
         self.scalars = []  # scalar buffers usable in rhs
         self.cfg_written = set()
 
@@ -236,8 +237,8 @@ class _Gen:
                 return self.read(b)
             if self.configs and roll2 < 0.85 and self.kn.p_config > 0:
                 cn, fields = r.choice(self.configs)
-                reals = [f for f, t in fields if t in ("f32", "f64")]
-                if reals and self.kn.precision in ("f32",):
+                reals = [f for f, t in fields if t == self.kn.precision]
+                if reals and self.kn.precision in ("f32", "f64"):
                     return f"{cn}.{r.choice(reals)}"
             return r.choice(["0.0", "1.0", "2.0", "0.5", "3.0", "-1.0"])
         if roll < 0.75:
@@ -290,6 +291,12 @@ class _Gen:
             opts.append(f"{s} > {r.choice([1, 2, 3])}")
         for a, (lo, hi) in self.idxargs.items():
             opts.append(f"{a} < {r.choice([lo + 1, hi])}")
+        if self.negidx:
+            c = r.choice([2, 3, 4])
+            opts.append(f"{self.negidx} % {c} == {r.randrange(c)}")
+            opts.append(f"({self.negidx} - 1) / {c} < 0")
+            if self.loops:
+                opts.append(f"({r.choice(self.loops).var} + {self.negidx}) % {c} < {r.randrange(1, c + 1)}")
         if self.configs and self.kn.p_config > 0:
             cn, fields = r.choice(self.configs)
             bs = [f for f, t in fields if t == "bool"]
@@ -403,6 +410,12 @@ class _Gen:
             lo = self.ext_min(E) + 1
             hi = E
             self.twin_site = f"loop seq({lo}, {E}) although {E} may be {self.ext_min(E)}"
+        qbound = None
+        if self.negidx and r.random() < 0.3:
+            cands_c = [c for c in (2, 3, 4) if c <= self.ext_min(E)]
+            if cands_c:
+                c = r.choice(cands_c)
+                qbound = (f"({self.negidx} - {r.choice([0, 1, 5])}) % {c}", c)
         base = r.choice(["i", "j", "k", "ii", "jj"])
         live = {L.var for L in self.loops}
         if self.kn.hostile_names and base not in live:
@@ -421,7 +434,10 @@ class _Gen:
         kind = "seq"
         if r.random() < self.kn.p_par:
             kind = "par"
-        if tri is not None and tri.var != v:
+        if qbound is not None:
+            self.emit(ind, f"for {v} in {kind}(0, {qbound[0]}):")
+            lo, hi = 0, Ext(None, qbound[1])
+        elif tri is not None and tri.var != v:
             # triangular nest: a bound of the inner loop mentions the outer iterator
             if r.random() < 0.5:
                 self.emit(ind, f"for {v} in {kind}({tri.var}, {E}):")
@@ -553,9 +569,13 @@ class _Gen:
             pass
         if t in ("f32", "f64"):
             srcs = [b.name for b in self.bufs if not b.shape and b.kind == "arg"]
-            if not srcs or self.loops:
+            if self.loops:
                 return False
-            self.emit(ind, f"{cn}.{f} = {r.choice(srcs)}")
+            if (not srcs or r.random() < 0.4) or (t == "f64" and self.kn.precision != "f64"):
+                # a literal that is not exactly representable in single precision
+                self.emit(ind, f"{cn}.{f} = {r.choice(['0.1', '0.3', '2.5', '1.0'])}")
+            else:
+                self.emit(ind, f"{cn}.{f} = {r.choice(srcs)}")
         elif t == "bool":
             if not self.bools or self.loops:
                 return False
@@ -674,6 +694,8 @@ def _gen_config(rng, idx):
         fields.append(("n", rng.choice(["index", "size"])))
     if rng.random() < 0.4:
         fields.append(("c", "f32"))
+    if rng.random() < 0.35:
+        fields.append(("d", "f64"))
     lines = ["@config", f"class {name}:"]
     for f, t in fields:
         lines.append(f"    {f}: {t}")
@@ -831,6 +853,13 @@ def gen_program(rng, kn: Knobs = None, root="root") -> GenProgram:
         g.idxargs["q"] = (0, 3)
         g.asserts.append("q >= 0")
         g.asserts.append("q <= 3")
+    if rng.random() < kn.p_quasi * 0.6:
+        # an index argument that may be negative (only used under / and %)
+        g.used_names.add("r")
+        sig.append("r: index")
+        g.negidx = "r"
+        g.asserts.append("r >= -6")
+        g.asserts.append("r <= 6")
     body_budget = rng.randint(3, kn.max_stmts)
     lines = ["@proc", f"def {root}({', '.join(sig)}):"]
     for a in g.asserts:
